@@ -303,6 +303,14 @@ func (e *SpecEnv) evalBin(n *SBin) Value {
 	case "==", "!=":
 		l, r := e.eval(n.L), e.eval(n.R)
 		var eq Term
+		if _, isLoc := l.(LocPtr); isLoc {
+			l = Sc{e.u.ctx.Const("nonnil-field-address", SInt), nil}
+			e.u.ctx.AssertAlways(Neq(l.(Sc).T, TNil), "field addresses are never nil")
+		}
+		if _, isLoc := r.(LocPtr); isLoc {
+			r = Sc{e.u.ctx.Const("nonnil-field-address", SInt), nil}
+			e.u.ctx.AssertAlways(Neq(r.(Sc).T, TNil), "field addresses are never nil")
+		}
 		switch a := l.(type) {
 		case SliceV:
 			switch b := r.(type) {
@@ -1030,14 +1038,27 @@ func (e *SpecEnv) modItems(x SExpr) []modItem {
 			if isStructType(b.Elem) {
 				u.forEachFlatFam(b.Elem, func(fam, sortv string) { out = append(out, modItem{fam: fam, sort: sortv, whole: true}) })
 			} else {
+				lo, hi := b.Off, Arith("+", b.Off, b.Len)
+				if !star {
+					i := e.scalar(n.I).T
+					lo = Arith("+", b.Off, i)
+					hi = Arith("+", lo, TOne)
+				}
 				for _, c := range comps(b.Elem) {
-					out = append(out, modItem{fam: cellFam(b.Elem) + c[0], sort: ArrSort(SInt, c[1]), whole: true})
+					arr, l2, h2 := b.Arr, lo, hi
+					out = append(out, modItem{fam: cellFam(b.Elem) + c[0], sort: ArrSort(SInt, c[1]), rngArr: &arr, rngLo: &l2, rngHi: &h2})
 				}
 			}
 			return out
 		}
 	case *SUn:
 		if n.Op == "*" {
+			if lp, ok := e.eval(n.X).(LocPtr); ok {
+				for _, c := range comps(lp.Typ) {
+					out = append(out, modItem{fam: lp.Fam + c[0], sort: ArrSort(SInt, c[1]), idx: lp.Idx})
+				}
+				return out
+			}
 			p := e.scalar(n.X)
 			el := derefType(p.Typ)
 			if el == nil {
